@@ -796,7 +796,13 @@ class Fn:
                         ev = Ev('atom', bb, t['line'], held_of(guards), t.get('mac'), term=dterm, outcome=lab)
                         u2 = dict(used)
                         u2[e] = u2.get(e, 0) + 1
-                        walk(tt, env, m2, u2, events + [ev], guards, trail, heap)
+                        g2 = guards
+                        if lab in ('None', 'Err') and dterm[0] == 'discr' and guards:
+                            # an Option<guard>/Result<guard,_> that turned out empty owns no guard
+                            gone = [l for l in guards if env.get(l) == dterm[1]]
+                            if gone:
+                                g2 = {l: g for l, g in guards.items() if l not in gone}
+                        walk(tt, env, m2, u2, events + [ev], g2, trail, heap)
                         if count[0] > budget:
                             raise PathBudget(self.name)
                     return
